@@ -161,16 +161,24 @@ Section XSound.
       destruct (filter _ R); [contradiction|cbn; lia].
     Qed.
 
+    Lemma heads_count_R n : heads_count n R = length (filter (fun c => chead c =? n) (revoked_certs x)).
+    Proof.
+      unfold heads_count, R, obs_revoked, revoked_certs. cbn [xo XModel.xobserve o_cache Model.observe].
+      apply Permutation_length, perm_filter.
+      assert (E : forall l, filter (fun c => cman c && obs_flagged (xobserve x) c) l =
+                            filter (fun c => cman c && flagged (rev x) c) l).
+      { intros l. apply filter_ext. intros c. rewrite obs_flagged_obs. reflexivity. }
+      rewrite E. apply perm_filter, sort_by_perm.
+    Qed.
+
     Lemma c14 : forallb (fun n => (oiss ob n <=? oiss oa n) && (ofl ob n <=? ofl oa n) &&
-                                  (((oiss oa n =? oiss ob n) && (ofl oa n =? ofl ob n)) || (0 <? heads_count n R))) (U k) = true.
+                                  (oiss oa n + ofl oa n <=? oiss ob n + ofl ob n + heads_count n R)) (U k) = true.
     Proof.
       apply forallb_U. intros n Hn. unfold ob, oa. rewrite !oiss_observe, !ofl_observe by exact Hn.
       destruct (rel n) as (_ & Ci & Cf & _). cbn [issued failed with_err] in Ci, Cf.
       rewrite (proj2 (Nat.leb_le _ _) Ci), (proj2 (Nat.leb_le _ _) Cf). cbn [andb].
-      destruct (ocsp_pass_only_for_revoked od idue x ord n ID X) as (_ & _ & _ & [(A1 & A2 & _)|(r & H1 & H2 & H3 & H4)]).
-      - fold x' in A1, A2. fold s' in A1, A2. fold s0 in A1, A2. rewrite A1, A2, !Nat.eqb_refl. reflexivity.
-      - rewrite (heads_pos n r); [apply orb_true_r| |exact H4].
-        apply In_obs_revoked, revoked_certs_spec; auto.
+      apply Nat.leb_le. rewrite heads_count_R.
+      apply (ocsp_pass_once_per_revoked od idue x ord n).
     Qed.
 
     Lemma fresh_not_in_obs i : next s0 <= i -> has_id i (certs_of_obs k (observe s0)) = false.
